@@ -1062,9 +1062,9 @@ impl<'s, A: Pay + Send + Sync, B: Pay + Send + Sync> W<'s, A, B> {
                     let eq = x == y;
                     let ord = x.cmp(y);
                     let pord = x.partial_cmp(y);
-                    let mut h1 = std::collections::hash_map::DefaultHasher::new();
+                    let mut h1 = crate::util::CallHasher::new();
                     x.hash(&mut h1);
-                    let mut h2 = std::collections::hash_map::DefaultHasher::new();
+                    let mut h2 = crate::util::CallHasher::new();
                     (**x).hash(&mut h2);
                     let dbg = format!("{:?}", x);
                     ensure!(
@@ -1120,7 +1120,7 @@ impl<'s, A: Pay + Send + Sync, B: Pay + Send + Sync> W<'s, A, B> {
                             let _ = x.cmp(y);
                         }
                         _ => {
-                            let mut h = std::collections::hash_map::DefaultHasher::new();
+                            let mut h = crate::util::CallHasher::new();
                             x.hash(&mut h);
                         }
                     });
